@@ -325,6 +325,7 @@ func (cd *cand) domain() []mutation {
 			t.Signature[9] ^= 4
 		})
 		add("Signature", "63-bytes", func(t *nom.AccountBlock) { t.Signature = append([]byte{}, t.Signature[:63]...) })
+		add("Signature", "65-bytes", func(t *nom.AccountBlock) { t.Signature = append(append([]byte{}, t.Signature...), 0) })
 	}
 	if cd.owner != nil {
 		add("Signature", "owner-signs-other-message", func(t *nom.AccountBlock) { t.Signature = cd.owner.Sign([]byte("other message")) })
